@@ -12,7 +12,7 @@ SMILES = [
     'CCO.O', '[Na+].[Cl-]', 'CC(=O)[O-].[Na+]', 'C[N+](C)(C)C.[Br-]', 'O', '[Na+]', 'OP(=O)(O)O', 'CS(=O)(=O)N',
     'c1ccc(cc1)-c1ccccc1', 'C/C=C/C', 'C/C=C\\C', 'ClC=CCl', 'N#Cc1ccccc1', 'O=C1CCCCC1', 'C1COCCO1', 'c1cc[nH]c1',
     'CC(C)(C)c1ccc(O)cc1', 'NC(=O)c1cccnc1', 'CSCC[C@H](N)C(=O)O', 'OC[C@H]1OC(O)[C@H](O)[C@@H](O)[C@@H]1O',
-    'BrC1=CC=CC=C1', '[2H]C([2H])([2H])O', 'C[13CH3]', 'CC(C)=O.O.O',
+    'BrC1=CC=CC=C1', '[2H]C([2H])([2H])O', 'C[13CH3]', 'CC(C)=O.O.O', '[2H]C([2H])(C)O', '[3H]c1ccccc1', 'CC(N)C(=O)O.[2H]O[2H]',
 ]
 
 OPT_KEYS = ('level', 'mult', 'stereo', 'remdup', 'incl', 'rdkit', 'exfloat')
@@ -176,3 +176,38 @@ def lattice_molecule(rng):
     m.AddConformer(conf, assignId=True)
     m.SetProp('_Name', 'lattice')
     return ('lattice %s step %.2f mult %.2f%s' % (smi, step, mult, ' +Cl-' if ion else ''), m, 0, mult)
+
+
+def near_radius_molecule(rng):
+    """(name, mol, conf_id, mult, level, delta): an embedded molecule uniformly SCALED so that one heavy-atom pair distance sits at a
+    relative offset delta (1e-3 .. 1e-7, either sign) from a shell radius k*mult.  Such a geometry is far outside floating-point
+    round-off of the threshold (1e-16 relative) - the properties quantify over it - but any code that snaps or perturbs coordinates
+    in the lab frame (rounding to file precision, float32, re-centring) decides it differently in different poses."""
+    import numpy as np
+    from rdkit import Chem
+    from rdkit.Geometry import Point3D
+    while True:
+        smi = rng.choice(SMILES)
+        m = embedded(smi, nconf=2, seed=rng.choice([3, 11]), keep_hs=rng.random() < 0.5)
+        if m is None:
+            continue
+        heavy = [a.GetIdx() for a in m.GetAtoms() if a.GetAtomicNum() > 1]
+        if len(heavy) < 3:
+            continue
+        m = Chem.Mol(m)
+        cid = rng.randrange(m.GetNumConformers())
+        conf = m.GetConformer(cid)
+        a, b = rng.sample(heavy, 2)
+        pa, pb = conf.GetAtomPosition(a), conf.GetAtomPosition(b)
+        d = float(np.linalg.norm(np.array([pa.x - pb.x, pa.y - pb.y, pa.z - pb.z])))
+        if d < 0.5:
+            continue
+        mult = rng.choice([1.0, 1.5, 1.718, 2.0])
+        level = rng.choice([2, 3, 4, 5])
+        k = min(level, max(1, int(round(d / mult))))
+        delta = rng.choice([1, -1]) * 10.0 ** (-rng.uniform(3, 7))
+        sc = k * mult * (1 + delta) / d
+        for i in range(m.GetNumAtoms()):
+            p = conf.GetAtomPosition(i)
+            conf.SetAtomPosition(i, Point3D(p.x * sc, p.y * sc, p.z * sc))
+        return ('%s scaled: d(%d,%d) = %d*%g*(1%+.1e)' % (smi, a, b, k, mult, delta), m, cid, mult, level, delta)
